@@ -1,5 +1,6 @@
 """C16 part B -- replacement fixes (missing_f, use_fstrings, unused_variable, too_many_positional_args,
-unused_ignore).  Spec: spec/FixReplace.tla; trace spec FixReplaceTrace.tla.  Called from c16.run()."""
+unused_ignore, missing_await, unused comprehension variable, asynq's task_needs_yield / impure_async_call).
+Spec: spec/FixReplace.tla; trace spec FixReplaceTrace.tla.  Called from c16.run()."""
 from __future__ import annotations
 
 import ast
@@ -12,13 +13,19 @@ from typing import Any
 from .. import core, pyz
 
 SETTINGS = {"missing_f": True, "use_fstrings": True, "unused_variable": True, "too_many_positional_args": True,
-            "unused_ignore": True, "missing_await": True}
+            "unused_ignore": True, "missing_await": True, "task_needs_yield": True, "impure_async_call": True}
 REAL_CODE = {"unused_comp": "unused_variable"}     # abstract kind -> error code it is reported under
 OPTIONS = {"maximum_positional_args": 2}
 FIXABLE = set(SETTINGS)
 warnings.filterwarnings("ignore", message="coroutine .* was never awaited")   # the state before a missing_await fix
 
-PRELUDE = '''def g3(a: int, b: int, c: int) -> tuple[int, int, int]:
+PRELUDE = '''from asynq import asynq
+
+@asynq()
+def atask(a: int) -> int:
+    return a
+
+def g3(a: int, b: int, c: int) -> tuple[int, int, int]:
     return (a, b, c)
 
 def h3(a: int, b: int, c: object) -> tuple[int, int, object]:
@@ -42,10 +49,13 @@ def fragment_source(i: int, frag: dict) -> str:
         expr = f"[name for q_{i} in range(n)]"
     else:
         expr = "name"
-    if k == "missing_await":
-        call = ["aco(", "    n", ")"] if c == "multiline" else [f"aco(n){note}"]
-        body = call + ["return name"]
-        lines = [f"async def fr_{i}(name: str, n: int) -> object:"]
+    if k in ("missing_await", "task_needs_yield", "impure_async_call"):
+        pre, fn, ret = {"missing_await": ("", "aco", "name"), "task_needs_yield": ("", "atask.asynq", "name"),
+                        "impure_async_call": ("v = ", "atask", "(name, v)")}[k]
+        call = [f"{pre}{fn}(", "    n", ")"] if c == "multiline" else [f"{pre}{fn}(n){note}"]
+        body = call + [f"return {ret}"]
+        lines = ([f"async def fr_{i}(name: str, n: int) -> object:"] if k == "missing_await"
+                 else ["@asynq()", f"def fr_{i}(name: str, n: int) -> object:"])
         if c == "in_if":
             lines += ["    if n >= 0:"] + ["        " + b for b in body] + ['    return ""']
         else:
